@@ -235,3 +235,112 @@ Proof.
       * symmetry. apply tie_acquire_wait_cancelled with (f := f); auto.
   - reflexivity.
 Qed.
+
+(* ---- what lift does, spelled out: the code-visible fields, the result, and every ghost field ---- *)
+Theorem lift_spec s t kd l g k o :
+  let s' := fst (lift s t kd (l, g, k, o)) in
+  core s' = mkh (h_fast k) (h_maxv k) (h_value k) (h_waiters k) (h_futs k) (h_nfut k) None [] [] (fun _ => false) 0 /\
+  snd (lift s t kd (l, g, k, o)) = match res_of o with Some x => x | None => RRejected end /\
+  phase_of s' = match o with
+                | OSuspend AwYield => upd (phase_of s) t FastYield
+                | OSuspend AwFut => match l_fut l with Some f => upd (phase_of s) t (Waiting f) | None => phase_of s end
+                | _ => phase_of s
+                end /\
+  mustc s' = mustc s /\ init0 s' = init0 s /\
+  held s' = match kd with
+            | KAcquire => if returned o then t :: held s else held s
+            | KAcquireC => held s
+            | KRelease => if returned o && mem t (held s) then remove_one t (held s) else held s
+            end /\
+  infl s' = g_woke g ++ match o with OSuspend AwYield => t :: infl s | _ => infl s end /\
+  extra s' = match kd with
+             | KRelease => if returned o && negb (mem t (held s)) then S (extra s) else extra s
+             | _ => extra s
+             end /\
+  dropped s' = match kd, o with KAcquireC, ORaise EValue => S (dropped s) | _, _ => dropped s end /\
+  enq s' = enq s ++ g_enq g.
+Proof.
+  cbn. repeat split. unfold ghost_app. destruct (g_enq g); [now rewrite app_nil_r | reflexivity].
+Qed.
+
+(* ---- the C10 clauses for runs of the generated segments (by rewriting with gstep_eq_step) ---- *)
+Lemma final_gstep ops : forall s, final (gstep sem_prog) s ops = final step s ops.
+Proof.
+  induction ops as [|o r IH]; intros s; [reflexivity|].
+  cbn. rewrite gstep_eq_step. apply IH.
+Qed.
+
+Lemma greach_run fa iv mx ops : reach fa iv mx (final (gstep sem_prog) (init fa iv mx) ops).
+Proof. exists ops. apply final_gstep. Qed.
+
+Theorem gen_conservation : forall fa iv mx ops, max_ok iv mx ->
+  let s := final (gstep sem_prog) (init fa iv mx) ops in
+  value s + length (held s) + length (infl s) + dropped s = iv + extra s /\
+  length (held s) + length (infl s) <= iv + extra s /\
+  dropped s <= extra s /\ (mx = None -> dropped s = 0) /\ (forall m, mx = Some m -> value s <= m).
+Proof. intros fa iv mx ops Hm. exact (sem_conservation fa iv mx _ Hm (greach_run fa iv mx ops)). Qed.
+
+Theorem gen_grant_only_if_free : forall fa iv mx ops t o, max_ok iv mx ->
+  let s := final (gstep sem_prog) (init fa iv mx) ops in
+  o = AcqBegin t \/ o = AcqNowait t ->
+  length (held (fst (gstep sem_prog s o))) + length (infl (fst (gstep sem_prog s o))) >
+    length (held s) + length (infl s) ->
+  value s = S (value (fst (gstep sem_prog s o))) /\ waiters s = [].
+Proof.
+  intros fa iv mx ops t o Hm. cbn zeta. rewrite gstep_eq_step.
+  exact (sem_grant_only_if_free fa iv mx _ t o Hm (greach_run fa iv mx ops)).
+Qed.
+
+Theorem gen_fifo : forall fa iv mx ops, max_ok iv mx ->
+  let s := final (gstep sem_prog) (init fa iv mx) ops in
+  subseq (waiters s) (enq s) /\ (value s > 0 -> waiters s = []).
+Proof.
+  intros fa iv mx ops Hm. split.
+  - exact (sem_queue_in_arrival_order fa iv mx _ Hm (greach_run fa iv mx ops)).
+  - exact (sem_value_pos_no_waiters fa iv mx _ Hm (greach_run fa iv mx ops)).
+Qed.
+
+Theorem gen_release_hands_to_first_live : forall s t, phase_of s t = Idle -> at_max s = false ->
+  let s' := fst (gstep sem_prog s (Release t)) in
+  snd (gstep sem_prog s (Release t)) = RDone /\
+  ((exists w pre f, waiters s = pre ++ (w, f) :: waiters s' /\ futs s f <> FCancelled /\
+      (forall t' f', In (t', f') pre -> futs s f' = FCancelled) /\
+      infl s' = w :: infl s /\ value s' = value s /\ futs s' f = FSet) \/
+   (waiters s' = [] /\ (forall t' f', In (t', f') (waiters s) -> futs s f' = FCancelled) /\
+      infl s' = infl s /\ value s' = S (value s))).
+Proof.
+  intros s t Hp Hmax. rewrite gstep_eq_step. cbn [step]. rewrite Hp, Hmax. cbn [is_idle negb].
+  pose proof (sem_handoff_first_live s) as H.
+  destruct (mem t (held s)); cbn [fst snd]; (split; [reflexivity|]); exact H.
+Qed.
+
+Theorem gen_release_beyond_max_rejected : forall s t,
+  phase_of s t = Idle -> maxv s = Some (value s) -> gstep sem_prog s (Release t) = (s, RValue).
+Proof. intros s t Hp Hm. rewrite gstep_eq_step. now apply sem_release_beyond_max_rejected. Qed.
+
+(* ---- non-vacuity and sensitivity (vm_compute) ---- *)
+Definition gfinal (fa : bool) (iv : nat) (mx : option nat) (ops : list op) : st :=
+  final (gstep sem_prog) (init fa iv mx) ops.
+
+Example ex_tie_yield_cancelled :
+  let s := gfinal false 1 (Some 1) [AcqBegin 1; Cancel 1] in phase_of s 1 = FastYield /\ mustc s 1 = true.
+Proof. vm_compute. split; reflexivity. Qed.
+Example ex_tie_wait_resumed :
+  let s := gfinal false 1 None [AcqBegin 1; Resume 1; AcqBegin 2; Release 1] in
+  phase_of s 2 = Waiting 0 /\ futs s 0 = FSet /\ mustc s 2 = false.
+Proof. vm_compute. repeat split. Qed.
+Example ex_tie_wait_cancelled :
+  let s := gfinal false 1 None [AcqBegin 1; Resume 1; AcqBegin 2; Cancel 2] in
+  phase_of s 2 = Waiting 0 /\ futs s 0 = FCancelled.
+Proof. vm_compute. repeat split. Qed.
+Example ex_tie_wait_race :
+  let s := gfinal false 1 None [AcqBegin 1; Resume 1; AcqBegin 2; Release 1; Cancel 2] in
+  phase_of s 2 = Waiting 0 /\ futs s 0 = FSet /\ mustc s 2 = true.
+Proof. vm_compute. repeat split. Qed.
+Example ex_gen_run_hands_over :
+  let s := gfinal false 1 None [AcqBegin 1; Resume 1; AcqBegin 2; AcqBegin 3; Cancel 2; Release 1] in
+  value s = 0 /\ waiters s = [] /\ infl s = [3] /\ held s = [].
+Proof. vm_compute. repeat split. Qed.
+Example ex_check_after_effect_is_stuck :
+  snd (exec (SSeq SDecValue SCkIf) 1 (loc_entry None None) log0 (core (init false 1 None))) = OStuck.
+Proof. vm_compute. reflexivity. Qed.
